@@ -57,6 +57,7 @@ def parseCmds (s : String) : List Cmd :=
     | ["bsbad", k] => [.lookupBad (nat! k)]
     | ["noid", v] => [.noId (nat! v)]
     | ["fs", v] => [.fs (nat! v)]
+    | ["sleep", _] => []
     | ["pcmd", v] => [.pluginCmd (nat! v)]
     | _ => [.junk]
 
@@ -83,7 +84,7 @@ def doLine (line : String) : String :=
       t.startsWith "open1p" || t.startsWith "opennc" || t.startsWith "openxc" || t.startsWith "stream1p"
     -- sessions in the other collect modes (one-pass streams / no collection): only "exactly one reply per command, server and
     -- connection alive" is specified; replies are compared as `reply`, deliveries are not compared
-    let nCmds := ((sc.splitOn " ;; ").filter fun c => c.trimAscii.toString != "").length
+    let nCmds := ((sc.splitOn " ;; ").filter fun c => c.trimAscii.toString != "" && !c.trimAscii.toString.startsWith "sleep").length
     let mobs := if wild then s!"{" ".intercalate (List.replicate nCmds "reply")} | - | alive=1 proc=1"
                 else s!"{" ".intercalate replies} | {" ".intercalate del} | alive=1 proc=1"
     -- commands sent while the server is still parsing (`!`): a stream that is ended by a later stop / close / window change
